@@ -1,14 +1,14 @@
 //! A second run on the state a first run left behind, on a *changed problem instance* of the same shape
 //! (same dimension and domain, other objective function): `Configuration::run(&problem_b, &mut state)`
 //! with a configuration that re-evaluates the current population, re-creates the best-so-far memory and
-//! continues with the generic loop of the same heuristic. Everything the second run initialises must be
+//! continues with the generic loop of the same heuristic (ga, es, ls, pso, de). Everything the second run initialises must be
 //! initialised afresh: nothing evaluated under the first objective may survive in a place the second run owns.
 use std::sync::Mutex;
 
 use mahf::{
-    components::{boundary, initialization, mutation, recombination, replacement, selection},
+    components::{boundary, initialization, mutation, recombination, replacement, selection, swarm},
     conditions::LessThanN,
-    heuristics::{de, es, ga, ls},
+    heuristics::{de, es, ga, ls, pso},
     identifier::Global,
     verif::StepEvent,
     Configuration,
@@ -43,13 +43,13 @@ const PAIRS: [(RealFn, RealFn); 4] = [(RealFn::NegSphere, RealFn::Sphere), (Real
 
 pub fn warm_restart(rng: &mut SplitMix64, k: usize) -> WarmOutcome {
     let dim = 1 + rng.usize(4);
-    let (first_fn, second_fn) = PAIRS[(k / 4) % PAIRS.len()];
+    let (first_fn, second_fn) = PAIRS[(k / 5) % PAIRS.len()];
     let a = Real::new(dim, -3.0, 5.0, first_fn);
     let b = Real::new(dim, -3.0, 5.0, second_fn);
     let seed = rng.next_u64();
     let n1 = 3 + rng.below(20) as u32;
     let n2 = 1 + rng.below(12) as u32;
-    let (variant, first, second): (&'static str, Configuration<Real>, Configuration<Real>) = match k % 4 {
+    let (variant, first, second): (&'static str, Configuration<Real>, Configuration<Real>) = match k % 5 {
         0 => (
             "ga",
             ga::real_ga(ga::RealProblemParameters { population_size: 6, tournament_size: 2, pm: 1.0, deviation: 0.2, pc: 0.8 }, LessThanN::iterations(n1)).unwrap(),
@@ -95,6 +95,24 @@ pub fn warm_restart(rng: &mut SplitMix64, k: usize) -> WarmOutcome {
                 .evaluate()
                 .update_best_individual()
                 .do_(ls::ls::<Real, Global>(ls::Parameters { num_neighbors: 4, neighbors: mutation::NormalMutation::new_dev(0.3), constraints: boundary::Saturation::new() }, LessThanN::iterations(n2)))
+                .build(),
+        ),
+        3 => (
+            "pso",
+            pso::real_pso(pso::RealProblemParameters { num_particles: 5, start_weight: 0.9, end_weight: 0.4, c_one: 1.7, c_two: 1.7, v_max: 1.0 }, LessThanN::iterations(n1)).unwrap(),
+            Configuration::builder()
+                .evaluate()
+                .update_best_individual()
+                .do_(pso::pso::<Real, Global>(
+                    pso::Parameters {
+                        particle_init: swarm::pso::ParticleSwarmInit::new(1.0).unwrap(),
+                        particle_update: swarm::pso::ParticleVelocitiesUpdate::new(0.7, 1.7, 1.7, 1.0).unwrap(),
+                        constraints: boundary::Saturation::new(),
+                        inertia_weight_update: None,
+                        state_update: swarm::pso::ParticleSwarmUpdate::new(),
+                    },
+                    LessThanN::iterations(n2),
+                ))
                 .build(),
         ),
         _ => (
